@@ -6,52 +6,52 @@ From TT Require Import Num NumR Tree M_subst.
 Open Scope R_scope.
 
 (* ------------------------------------------------------------------ finite sums *)
-Definition S {A} (l : list A) (f : A -> R) : R := nsum NumR (map f l).
+Definition Sum {A} (l : list A) (f : A -> R) : R := nsum NumR (map f l).
 
-Lemma S_nil {A} (f : A -> R) : S [] f = 0.
+Lemma S_nil {A} (f : A -> R) : Sum [] f = 0.
 Proof. reflexivity. Qed.
-Lemma S_cons {A} x (l : list A) f : S (x :: l) f = f x + S l f.
+Lemma S_cons {A} x (l : list A) f : Sum (x :: l) f = f x + Sum l f.
 Proof. reflexivity. Qed.
-Lemma S_ext {A} (l : list A) f g : (forall k, In k l -> f k = g k) -> S l f = S l g.
+Lemma S_ext {A} (l : list A) f g : (forall k, In k l -> f k = g k) -> Sum l f = Sum l g.
 Proof.
   induction l as [|x l IH]; intros H; [reflexivity|]. rewrite !S_cons.
   rewrite (H x) by (left; reflexivity). rewrite IH; [reflexivity|]. intros; apply H; right; assumption.
 Qed.
-Lemma S_plus {A} (l : list A) f g : S l (fun k => f k + g k) = S l f + S l g.
+Lemma S_plus {A} (l : list A) f g : Sum l (fun k => f k + g k) = Sum l f + Sum l g.
 Proof. induction l as [|x l IH]; [rewrite !S_nil; lra|]. rewrite !S_cons, IH. lra. Qed.
-Lemma S_scal {A} (l : list A) c f : S l (fun k => c * f k) = c * S l f.
+Lemma S_scal {A} (l : list A) c f : Sum l (fun k => c * f k) = c * Sum l f.
 Proof. induction l as [|x l IH]; [rewrite !S_nil; lra|]. rewrite !S_cons, IH. lra. Qed.
-Lemma S_scal_r {A} (l : list A) c f : S l (fun k => f k * c) = S l f * c.
+Lemma S_scal_r {A} (l : list A) c f : Sum l (fun k => f k * c) = Sum l f * c.
 Proof. induction l as [|x l IH]; [rewrite !S_nil; lra|]. rewrite !S_cons, IH. lra. Qed.
-Lemma S_zero {A} (l : list A) : S l (fun _ => 0) = 0.
+Lemma S_zero {A} (l : list A) : Sum l (fun _ => 0) = 0.
 Proof. induction l as [|x l IH]; [reflexivity|]. rewrite S_cons, IH. lra. Qed.
-Lemma S_const {A} (l : list A) c : S l (fun _ => c) = INR (length l) * c.
+Lemma S_const {A} (l : list A) c : Sum l (fun _ => c) = INR (length l) * c.
 Proof.
   induction l as [|x l IH]; [rewrite S_nil; simpl; lra|].
   rewrite S_cons, IH. cbn [length]. rewrite S_INR. lra.
 Qed.
-Lemma S_opp {A} (l : list A) f : S l (fun k => - f k) = - S l f.
+Lemma S_opp {A} (l : list A) f : Sum l (fun k => - f k) = - Sum l f.
 Proof. induction l as [|x l IH]; [rewrite !S_nil; lra|]. rewrite !S_cons, IH. lra. Qed.
 Lemma S_swap {A B} (l : list A) (m : list B) f :
-  S l (fun i => S m (fun j => f i j)) = S m (fun j => S l (fun i => f i j)).
+  Sum l (fun i => Sum m (fun j => f i j)) = Sum m (fun j => Sum l (fun i => f i j)).
 Proof.
   induction l as [|x l IH].
   - rewrite S_nil. symmetry. apply S_zero.
   - rewrite S_cons, IH. rewrite <- S_plus. apply S_ext. intros; rewrite S_cons; reflexivity.
 Qed.
-Lemma S_nonneg {A} (l : list A) f : (forall k, In k l -> 0 <= f k) -> 0 <= S l f.
+Lemma S_nonneg {A} (l : list A) f : (forall k, In k l -> 0 <= f k) -> 0 <= Sum l f.
 Proof.
   induction l as [|x l IH]; intros H; [rewrite S_nil; lra|]. rewrite S_cons.
   assert (0 <= f x) by (apply H; left; reflexivity).
-  assert (0 <= S l f) by (apply IH; intros; apply H; right; assumption). lra.
+  assert (0 <= Sum l f) by (apply IH; intros; apply H; right; assumption). lra.
 Qed.
-Lemma S_delta_notin (l : list nat) i f : ~ In i l -> S l (fun k => if Nat.eqb k i then f k else 0) = 0.
+Lemma S_delta_notin (l : list nat) i f : ~ In i l -> Sum l (fun k => if Nat.eqb k i then f k else 0) = 0.
 Proof.
   induction l as [|x l IH]; intros H; [reflexivity|]. rewrite S_cons, IH.
   - destruct (Nat.eqb_spec x i); [|lra]. exfalso; apply H; left; assumption.
   - intro; apply H; right; assumption.
 Qed.
-Lemma S_delta (l : list nat) i f : NoDup l -> In i l -> S l (fun k => if Nat.eqb k i then f k else 0) = f i.
+Lemma S_delta (l : list nat) i f : NoDup l -> In i l -> Sum l (fun k => if Nat.eqb k i then f k else 0) = f i.
 Proof.
   induction 1 as [|x l Hx Hl IH]; intros Hi; [destruct Hi|]. rewrite S_cons.
   destruct Hi as [->|Hi].
@@ -59,23 +59,23 @@ Proof.
   - rewrite IH by assumption. destruct (Nat.eqb_spec x i); [subst; contradiction|lra].
 Qed.
 Lemma S_mul {A B} (l : list A) (m : list B) f g :
-  S l f * S m g = S l (fun i => S m (fun j => f i * g j)).
+  Sum l f * Sum m g = Sum l (fun i => Sum m (fun j => f i * g j)).
 Proof.
   rewrite <- S_scal_r. apply S_ext; intros. rewrite S_scal. reflexivity.
 Qed.
 
-Notation Sn n f := (S (seq 0 n) f).
-Lemma sum_n_S n f : sum_n NumR n f = Sn n f.
+Notation Sumn n f := (Sum (seq 0 n) f).
+Lemma sum_n_S n f : sum_n NumR n f = Sumn n f.
 Proof. reflexivity. Qed.
-Lemma Sn_delta n i f : (i < n)%nat -> Sn n (fun k => if Nat.eqb k i then f k else 0) = f i.
+Lemma Sn_delta n i f : (i < n)%nat -> Sumn n (fun k => if Nat.eqb k i then f k else 0) = f i.
 Proof. intros; apply S_delta; [apply seq_NoDup|apply in_seq; lia]. Qed.
-Lemma Sn_delta' n i f : (i < n)%nat -> Sn n (fun k => if Nat.eqb i k then f k else 0) = f i.
+Lemma Sn_delta' n i f : (i < n)%nat -> Sumn n (fun k => if Nat.eqb i k then f k else 0) = f i.
 Proof.
   intros. rewrite <- (Sn_delta n i f) by assumption. apply S_ext; intros. rewrite Nat.eqb_sym; reflexivity.
 Qed.
-Lemma Sn_const n c : Sn n (fun _ => c) = INR n * c.
+Lemma Sn_const n c : Sumn n (fun _ => c) = INR n * c.
 Proof. rewrite S_const, seq_length; reflexivity. Qed.
-Lemma Sn_ext n f g : (forall k, (k < n)%nat -> f k = g k) -> Sn n f = Sn n g.
+Lemma Sn_ext n f g : (forall k, (k < n)%nat -> f k = g k) -> Sumn n f = Sumn n g.
 Proof. intros H; apply S_ext; intros k Hk; apply in_seq in Hk; apply H; lia. Qed.
 
 (* ------------------------------------------------------------------ list matrices *)
@@ -133,14 +133,14 @@ Proof. induction l as [|x l IH]; [reflexivity|]. cbn. rewrite IH; reflexivity. Q
 
 Lemma vec_mat_map (ks js : list nat) a g :
   vec_mat NumR (length js) (map a ks) (map (fun k => map (g k) js) ks)
-  = map (fun j => S ks (fun k => a k * g k j)) js.
+  = map (fun j => Sum ks (fun k => a k * g k j)) js.
 Proof.
   induction ks as [|k ks IH].
   - cbn [map vec_mat]. rewrite repeat_map. reflexivity.
   - cbn [map vec_mat]. rewrite IH. unfold vscale. rewrite map_map, vadd_map.
     apply map_ext. intros j. rewrite S_cons. reflexivity.
 Qed.
-Lemma mmul_mkm n f g : mmul NumR n (mkm n f) (mkm n g) = mkm n (fun i j => Sn n (fun k => f i k * g k j)).
+Lemma mmul_mkm n f g : mmul NumR n (mkm n f) (mkm n g) = mkm n (fun i j => Sumn n (fun k => f i k * g k j)).
 Proof.
   unfold mmul, mk_mat. rewrite map_map. apply map_ext. intros i.
   pose proof (vec_mat_map (seq 0 n) (seq 0 n) (f i) g) as H. rewrite seq_length in H. exact H.
@@ -151,17 +151,17 @@ Section Builders.
 Variables (n : nat) (r : nat -> nat -> R) (pi : list R).
 Let Q := q_of_R NumR n r pi.
 
-Lemma qe_diag i : q_entry NumR n r pi i i = - Sn n (fun k => if Nat.eqb k i then 0 else r i k * vg pi k).
+Lemma qe_diag i : q_entry NumR n r pi i i = - Sumn n (fun k => if Nat.eqb k i then 0 else r i k * vg pi k).
 Proof. unfold q_entry. rewrite Nat.eqb_refl. reflexivity. Qed.
 Lemma qe_off i j : i <> j -> q_entry NumR n r pi i j = r i j * vg pi j.
 Proof. intros H. unfold q_entry. destruct (Nat.eqb_spec i j); [contradiction|reflexivity]. Qed.
 
-Lemma q_row_sum i : (i < n)%nat -> Sn n (fun j => q_entry NumR n r pi i j) = 0.
+Lemma q_row_sum i : (i < n)%nat -> Sumn n (fun j => q_entry NumR n r pi i j) = 0.
 Proof.
   intros Hi.
   set (o := fun k => if Nat.eqb k i then 0 else r i k * vg pi k).
-  rewrite (S_ext _ _ (fun j => o j + (if Nat.eqb j i then - Sn n o else 0))).
-  - rewrite S_plus. rewrite (Sn_delta n i (fun _ => - Sn n o)) by assumption. lra.
+  rewrite (S_ext _ _ (fun j => o j + (if Nat.eqb j i then - Sumn n o else 0))).
+  - rewrite S_plus. rewrite (Sn_delta n i (fun _ => - Sumn n o)) by assumption. lra.
   - intros j _. unfold o. destruct (Nat.eqb_spec j i) as [->|Hji].
     + rewrite qe_diag. lra.
     + rewrite qe_off by congruence. lra.
@@ -197,7 +197,7 @@ Lemma q_diag_nonpos :
   forall i, (i < n)%nat -> mg Q i i <= 0.
 Proof.
   intros Hr Hp i Hi. rewrite q_entry_mg, qe_diag by assumption.
-  assert (0 <= Sn n (fun k => if Nat.eqb k i then 0 else r i k * vg pi k)); [|lra].
+  assert (0 <= Sumn n (fun k => if Nat.eqb k i then 0 else r i k * vg pi k)); [|lra].
   apply S_nonneg. intros k _. destruct (Nat.eqb k i); [lra|].
   apply Rmult_le_pos; [apply Hr|apply vg_nonneg; assumption].
 Qed.
@@ -212,7 +212,7 @@ Qed.
 
 Lemma q_pi_stationary :
   (forall i j, r i j = r j i) ->
-  forall j, (j < n)%nat -> Sn n (fun i => vg pi i * mg Q i j) = 0.
+  forall j, (j < n)%nat -> Sumn n (fun i => vg pi i * mg Q i j) = 0.
 Proof.
   intros Hs j Hj.
   rewrite (Sn_ext n _ (fun i => vg pi j * q_entry NumR n r pi j i)).
@@ -293,8 +293,8 @@ Lemma mdiv_rows_sum_zero Q c : Forall (fun row => nsum NumR row = 0) Q ->
 Proof.
   intros H. unfold mdiv. apply Forall_forall. intros row Hr. apply in_map_iff in Hr.
   destruct Hr as [row0 [<- Hin]]. rewrite Forall_forall in H. specialize (H row0 Hin).
-  change (S row0 (fun x => div NumR x c) = 0). cbn [div NumR]. unfold Rdiv.
-  rewrite S_scal_r. change (S row0 (fun x => x)) with (nsum NumR (map (fun x => x) row0)).
+  change (Sum row0 (fun x => div NumR x c) = 0). cbn [div NumR]. unfold Rdiv.
+  rewrite S_scal_r. change (Sum row0 (fun x => x)) with (nsum NumR (map (fun x => x) row0)).
   rewrite map_id, H. ring.
 Qed.
 
@@ -303,11 +303,11 @@ From Coquelicot Require Import Coquelicot.
 
 Lemma is_derive_S {A} (l : list A) (f : A -> R -> R) (d : A -> R) x :
   (forall k, In k l -> is_derive (f k) x (d k)) ->
-  is_derive (fun t => S l (fun k => f k t)) x (S l d).
+  is_derive (fun t => Sum l (fun k => f k t)) x (Sum l d).
 Proof.
   induction l as [|a l IH]; intros H.
   - apply (is_derive_ext (fun _ => 0)); [intros; reflexivity|]. rewrite S_nil. apply @is_derive_const.
-  - apply (is_derive_ext (fun t => f a t + S l (fun k => f k t))); [intros; rewrite S_cons; reflexivity|].
+  - apply (is_derive_ext (fun t => f a t + Sum l (fun k => f k t))); [intros; rewrite S_cons; reflexivity|].
     rewrite S_cons. apply @is_derive_plus.
     + apply H; left; reflexivity.
     + apply IH; intros; apply H; right; assumption.
@@ -325,7 +325,7 @@ Let a := mg A.
 Let b := mg B.
 Let l := vg lam.
 
-Definition pf (t : R) (i j : nat) : R := Sn n (fun k => a i k * exp (l k * t) * b k j).
+Definition pf (t : R) (i j : nat) : R := Sumn n (fun k => a i k * exp (l k * t) * b k j).
 
 Lemma scale_cols_mkm (g : R -> R) :
   map (fun row => vmul NumR row (map g lam)) A = mkm n (fun i k => a i k * g (l k)).
@@ -341,7 +341,7 @@ Proof.
 Qed.
 
 Lemma AlamB_mkm :
-  mmul NumR n (map (fun row => vmul NumR row lam) A) B = mkm n (fun i j => Sn n (fun k => a i k * l k * b k j)).
+  mmul NumR n (map (fun row => vmul NumR row lam) A) B = mkm n (fun i j => Sumn n (fun k => a i k * l k * b k j)).
 Proof.
   replace (map (fun row => vmul NumR row lam) A)
     with (map (fun row => vmul NumR row (map (fun x : R => x) lam)) A) by (rewrite map_id; reflexivity).
@@ -352,12 +352,12 @@ Qed.
 Hypothesis HAB : mmul NumR n A B = mident NumR n.
 Hypothesis HBA : mmul NumR n B A = mident NumR n.
 
-Lemma ab_delta i j : (i < n)%nat -> (j < n)%nat -> Sn n (fun k => a i k * b k j) = if Nat.eqb i j then 1 else 0.
+Lemma ab_delta i j : (i < n)%nat -> (j < n)%nat -> Sumn n (fun k => a i k * b k j) = if Nat.eqb i j then 1 else 0.
 Proof.
   intros Hi Hj. pose proof HAB as H. rewrite (wf_mkm n A HA), (wf_mkm n B HB), mmul_mkm, mident_mkm in H.
   exact (mkm_inj _ _ _ i j H Hi Hj).
 Qed.
-Lemma ba_delta i j : (i < n)%nat -> (j < n)%nat -> Sn n (fun k => b i k * a k j) = if Nat.eqb i j then 1 else 0.
+Lemma ba_delta i j : (i < n)%nat -> (j < n)%nat -> Sumn n (fun k => b i k * a k j) = if Nat.eqb i j then 1 else 0.
 Proof.
   intros Hi Hj. pose proof HBA as H. rewrite (wf_mkm n A HA), (wf_mkm n B HB), mmul_mkm, mident_mkm in H.
   exact (mkm_inj _ _ _ i j H Hi Hj).
@@ -375,7 +375,7 @@ Lemma spectral_semigroup s t :
 Proof.
   rewrite !p_spectral_mkm, mmul_mkm. apply mkm_ext. intros i j Hi Hj. unfold pf.
   (* expand the product of sums, bring the contracted index inside *)
-  rewrite (S_ext _ _ (fun m => Sn n (fun k => Sn n (fun q =>
+  rewrite (S_ext _ _ (fun m => Sumn n (fun k => Sumn n (fun q =>
             (a i k * exp (l k * s) * b k m) * (a m q * exp (l q * t) * b q j)))))
     by (intros; apply S_mul).
   rewrite S_swap.
@@ -407,26 +407,26 @@ Lemma spectral_continuous i j t : (i < n)%nat -> (j < n)%nat ->
 Proof.
   intros Hi Hj. apply (continuous_ext (fun t => pf t i j)).
   - intros u. rewrite p_spectral_mkm, mg_mkm by assumption. reflexivity.
-  - apply (ex_derive_continuous (fun t => pf t i j)). exists (Sn n (fun k => a i k * (l k * exp (l k * t)) * b k j)).
+  - apply (ex_derive_continuous (fun t => pf t i j)). exists (Sumn n (fun k => a i k * (l k * exp (l k * t)) * b k j)).
     unfold pf. apply is_derive_S. intros k _. auto_derive; [trivial|]. ring.
 Qed.
 
 (* rows of P(t) sum to one when the rows of Q = A diag(lam) B sum to zero *)
 Lemma spectral_rows_sum_one :
-  (forall i, (i < n)%nat -> Sn n (fun j => Sn n (fun k => a i k * l k * b k j)) = 0) ->
-  forall t i, (i < n)%nat -> Sn n (fun j => mg (p_spectral NumR n A lam B t) i j) = 1.
+  (forall i, (i < n)%nat -> Sumn n (fun j => Sumn n (fun k => a i k * l k * b k j)) = 0) ->
+  forall t i, (i < n)%nat -> Sumn n (fun j => mg (p_spectral NumR n A lam B t) i j) = 1.
 Proof.
   intros HQ t i Hi.
-  set (beta := fun k => Sn n (fun j => b k j)).
+  set (beta := fun k => Sumn n (fun j => b k j)).
   assert (Hlb : forall m, (m < n)%nat -> l m * beta m = 0).
   { intros m Hm.
-    assert (Hrow : forall i0, (i0 < n)%nat -> Sn n (fun k => a i0 k * (l k * beta k)) = 0).
+    assert (Hrow : forall i0, (i0 < n)%nat -> Sumn n (fun k => a i0 k * (l k * beta k)) = 0).
     { intros i0 Hi0. etransitivity; [|exact (HQ i0 Hi0)].
       rewrite (S_swap (seq 0 n) (seq 0 n) (fun j k => a i0 k * l k * b k j)).
       apply S_ext. intros k _. unfold beta. rewrite <- !S_scal. apply S_ext; intros; ring. }
-    assert (E : Sn n (fun i0 => b m i0 * Sn n (fun k => a i0 k * (l k * beta k))) = 0).
+    assert (E : Sumn n (fun i0 => b m i0 * Sumn n (fun k => a i0 k * (l k * beta k))) = 0).
     { rewrite (Sn_ext n _ (fun _ => 0)) by (intros i0 Hi0; rewrite Hrow by assumption; ring). apply S_zero. }
-    rewrite (Sn_ext n _ (fun i0 => Sn n (fun k => (l k * beta k) * (b m i0 * a i0 k)))) in E
+    rewrite (Sn_ext n _ (fun i0 => Sumn n (fun k => (l k * beta k) * (b m i0 * a i0 k)))) in E
       by (intros; rewrite <- S_scal; apply S_ext; intros; ring).
     rewrite S_swap in E.
     rewrite (Sn_ext n _ (fun k => if Nat.eqb m k then l k * beta k else 0)) in E.
@@ -435,10 +435,10 @@ Proof.
   rewrite (Sn_ext n _ (fun j => pf t i j)) by (intros; rewrite p_spectral_mkm, mg_mkm by assumption; reflexivity).
   unfold pf. rewrite S_swap.
   rewrite (Sn_ext n _ (fun k => a i k * beta k)).
-  - unfold beta. rewrite (Sn_ext n _ (fun k => Sn n (fun j => a i k * b k j))) by (intros; rewrite S_scal; reflexivity).
+  - unfold beta. rewrite (Sn_ext n _ (fun k => Sumn n (fun j => a i k * b k j))) by (intros; rewrite S_scal; reflexivity).
     rewrite S_swap. rewrite (Sn_ext n _ (fun j => if Nat.eqb i j then 1 else 0)) by (intros; apply ab_delta; assumption).
     rewrite (Sn_delta' n i (fun _ => 1)) by assumption. reflexivity.
-  - intros k Hk. rewrite S_scal. replace (Sn n (b k)) with (beta k) by reflexivity.
+  - intros k Hk. rewrite S_scal. replace (Sumn n (b k)) with (beta k) by reflexivity.
     destruct (Req_dec (l k) 0) as [E|E].
     + rewrite E, Rmult_0_l, exp_0. ring.
     + assert (beta k = 0) as ->; [|ring].
@@ -455,7 +455,7 @@ Lemma symmetrised_entry i j : (i < n)%nat -> (j < n)%nat ->
   mg (symmetrised NumR n Q pi) i j = sqrt (vg pi i) * mg Q i j / sqrt (vg pi j).
 Proof. intros; unfold symmetrised; rewrite mg_mkm by assumption; reflexivity. Qed.
 
-(* S = sqrt(pi) Q sqrt(pi)^-1 is symmetric exactly when detailed balance holds *)
+(* Smat = sqrt(pi) Q sqrt(pi)^-1 is symmetric exactly when detailed balance holds *)
 Lemma symmetrised_symmetric_iff :
   (forall i j, (i < n)%nat -> (j < n)%nat ->
      mg (symmetrised NumR n Q pi) i j = mg (symmetrised NumR n Q pi) j i) <->
@@ -474,7 +474,7 @@ Proof.
     field_simplify; [|lra|lra]. lra.
 Qed.
 
-(* from an eigendecomposition S = V diag(lam) W, W = V^-1, the code's factors
+(* from an eigendecomposition Smat = V diag(lam) W, W = V^-1, the code's factors
    A = sqrt(pi)^-1 V and B = W sqrt(pi) are mutually inverse and A diag(lam) B = Q *)
 Variables (V W : list (list R)) (lam : list R).
 Hypothesis HQ : wf n Q.
